@@ -389,7 +389,7 @@ def pub_property(ctx, pid, prop_file, model_files, judge, family_filter=None, ru
     nbad = 0
     for name in judge["monitors"]:
         for (i, fields) in res["defs"].get(name, []):
-            if i not in selset and name != "history_bad":
+            if i not in selset and name not in ("history_bad",):
                 continue
             sig, text = judge["classify"](name, fields, runs[i] if i < len(runs) and name != "history_bad" else {"family": "seq", "faults": None})
             if sig is None:
@@ -578,6 +578,29 @@ def check_C06(ctx):
 
 def replay_C06(ctx):
     return check_C06(ctx)
+
+
+def check_C17(ctx):
+    base = diverge_classify("C17")
+    def classify(name, fields, run):
+        if name == "diverge_bad":
+            # only where the forwarding part is concerned: a delivery or the filter callback
+            if not ("BatchDeliver" in fields[1] or "FilterForwarding" in fields[1] or "MaxInboxForwarding" in fields[1]):
+                return (None, None)
+        if name == "forward_bad" and fields[1].startswith("member ids handed"):
+            return ("C17:forward-member-ids", fields[1])
+        return base(name, fields, run)
+    return pub_property(ctx, "C17", "Properties/C17.v",
+                        ["Pub/SideEffect.v inbox_forwarding / my_iris / load_collections / has_forwarding_values / forwarding_recipients, Pub/Monitors.v fwd_step",
+                         "modelled, not verified: the 'if' direction (conditions hold => forwarded) is judged on the real traces and tied by replay; the theorem is the 'only if' direction, once-ness and unchanged payload for every environment"],
+                        {"monitors": ["forward_bad", "sequence_bad", "diverge_bad"], "classify": classify,
+                         "rule": "activities whose to/cc/audience mix owned collections, foreign collections, owned non-collections and actors; reply chains of depth 0..5 through embedded values and dereferenced IRIs with ownership at a random level; depth limit 1..4; filters all / first / none; each activity delivered 1..3 times to one or two local inboxes against one evolving world; plus every standard inbox scenario with single faults"},
+                        family_filter=lambda f: f.startswith(("inbox:", "forward:")),
+                        run_specs=[("forward", ["-families", "forward", "-n", "60" if ctx.tier == "quick" else "1500", "-faults", "none", "-maxruns", "40000"]), ("std", PUB_STD[ctx.tier])])
+
+
+def replay_C17(ctx):
+    return check_C17(ctx)
 
 
 def check_C03(ctx):
